@@ -124,6 +124,7 @@ class World:
         self.fresh = []  # identifiers minted by Dataset.graph(None), in order
         self.nview = 0
         self.ngraph = 0
+        self.wdu = default_union
         # views obtained BEFORE any mutation
         self.pre = {c: Graph(self.store, identifier=self.name(c)) for c in names if c < FRESH_BASE}
 
@@ -185,8 +186,17 @@ def pat_terms(p):
 def do_op(w: World, op):
     d = w.d
     k = op[0]
+    if k in ("add", "addn", "rem", "graph", "rmgraph", "rmctx"):
+        d.default_union = w.wdu  # writes must not depend on the flag: the history runs under the case's setting
     if k == "add":
-        d.add(w.toq(pat_terms(op[1]), op[2]))
+        via = op[3] if len(op) > 3 else None
+        if via and op[2] != "t" and op[2][1] is not None and op[2][1][0] == "id":
+            # the same add issued through a Graph(store, name) view: one obtained before the history, or a new one
+            c = op[2][1][1]
+            v = w.pre[c] if via == "pre" and c in w.pre else Graph(w.store, identifier=w.name(c))
+            v.add(pat_terms(op[1]))
+        else:
+            d.add(w.toq(pat_terms(op[1]), op[2]))
     elif k == "addn":
         d.addN([pat_terms(t) + (w.garg(a),) for t, a in op[1]])
     elif k == "rem":
@@ -319,6 +329,7 @@ class C02(Suite):
                 return [None, None, None]
             return [x if rng.random() < 0.5 else None for x in t]
 
+        wdu = rng.random() < 0.5  # default_union while the writes run
         added = []  # (triple, graph name) pairs some add has mentioned: reads aim at them
 
         def aimed_read():
@@ -336,6 +347,8 @@ class C02(Suite):
             if r < 0.32:
                 ops.append(["add", rng.choice(vocab), ctxarg(True)])
                 ca = ops[-1][2]
+                if ca != "t" and ca[1] is not None and ca[1][0] == "id" and ca[1][1] < FRESH_BASE and rng.random() < 0.25:
+                    ops[-1].append(rng.choice(["pre", "new"]))  # through a Graph view instead of the front end
                 added.append((ops[-1][1], 0 if ca == "t" or ca[1] is None else ca[1][1]))
             elif r < 0.37:
                 ops.append(["addn", [[rng.choice(vocab), garg(True)] for _ in range(rng.choice([1, 2, 3]))]])
@@ -343,6 +356,8 @@ class C02(Suite):
                 ca = ctxarg(True, 0.3)
                 if ca == ["q", None] and rng.random() < 0.5:
                     ca = "t"
+                if rng.random() < 0.15:  # name the DEFAULT graph, by identifier or by Graph object
+                    ca = ["q", [rng.choice(["id", "view"]), 0]]
                 ops.append(["rem", pattern(), ca])
             elif r < 0.64 and is_ds:
                 if rng.random() < 0.2:
@@ -377,11 +392,34 @@ class C02(Suite):
                 if added and rng.random() < 0.6:
                     p, ca = aimed_read()
                 ops.append(["in", p, ca, rng.random() < 0.5])
-        return {"ds": is_ds, "names": names, "vocab": vocab, "ops": ops}
+        if rng.random() < 0.12:
+            # a graph emptied by a removal that names NO graph, then removed, then written to again
+            g = rng.choice([c for c in used if c != 0] or [1])
+            t = rng.choice(vocab)
+            scen = [["add", t, ["q", ["id", g]]],
+                    ["rem", rng.choice([list(t), [None, None, None], [t[0], None, None]]), rng.choice(["t", ["q", None]])],
+                    ["rmgraph", [rng.choice(["id", "view"]), g]] if is_ds else ["rmctx", g],
+                    ["add", rng.choice(vocab), ["q", ["id", g]]] + rng.choice([[], ["pre"], ["new"]])]
+            at = rng.randrange(len(ops) + 1)
+            ops = ops[:at] + scen + ops[at:]
+            if g not in names:
+                names = sorted(names + [g])
+        if rng.random() < 0.12:
+            # the default graph and a named graph share a triple; remove it naming the default graph
+            g = rng.choice([c for c in used if c != 0] or [1])
+            t = rng.choice(vocab)
+            scen = [["add", t, "t"], ["add", t, ["q", ["id", g]]],
+                    ["rem", rng.choice([list(t), [None, None, None], [None, t[1], None]]), ["q", [rng.choice(["id", "view"]), 0]]]]
+            at = rng.randrange(len(ops) + 1)
+            ops = ops[:at] + scen + ops[at:]
+            wdu = wdu or rng.random() < 0.7
+            if g not in names:
+                names = sorted(names + [g])
+        return {"ds": is_ds, "wdu": wdu, "names": names, "vocab": vocab, "ops": ops}
 
     # ------------------------------------------------------------ implementation
     def run_impl(self, case):
-        w = World(case["ds"], case["names"])
+        w = World(case["ds"], case["names"], default_union=bool(case.get("wdu", False)))
         obs = []
         for op in case["ops"]:
             try:
@@ -412,7 +450,10 @@ class C02(Suite):
         return bool(kinds & {"add", "addn"}) and bool(kinds & {"rem", "rmgraph", "rmctx"}) and len(graphs) >= 2
 
     def features(self, case, obs):
-        f = {"front_" + ("dataset" if case["ds"] else "conjunctive"): 1, "ops_total": len(case["ops"])}
+        f = {"front_" + ("dataset" if case["ds"] else "conjunctive"): 1, "ops_total": len(case["ops"]),
+             "writes_under_default_union": int(bool(case.get("wdu"))),
+             "adds_through_view": sum(1 for o in case["ops"] if o[0] == "add" and len(o) > 3),
+             "removals_naming_default_graph": sum(1 for o in case["ops"] if o[0] == "rem" and o[2] != "t" and o[2][1] and o[2][1][1] == 0)}
         for o in case["ops"]:
             f["op_" + o[0]] = f.get("op_" + o[0], 0) + 1
             for a in _gargs(o):
@@ -433,6 +474,8 @@ class C02(Suite):
         ops = case["ops"]
         for i in range(len(ops)):
             yield dict(case, ops=ops[:i] + ops[i + 1:])
+        if case.get("wdu"):
+            yield dict(case, wdu=False)
         for i in range(len(case["names"])):
             if case["names"][i] != 0 and len(case["names"]) > 1:
                 yield dict(case, names=case["names"][:i] + case["names"][i + 1:])
@@ -448,7 +491,7 @@ class C02(Suite):
             ["add", t1, "t"], ["add", t1, ["q", ["id", 1]]], ["add", t1, ["q", ["id", 3]]],
             ["add", t2, ["q", ["view", 1]]], ["add", t2, ["q", ["foreign", 3, [t1]]]],
             ["rem", t1, "t"], ["rem", t1, ["q", ["id", 1]]], ["rem", [None, 3, None], ["q", ["id", 3]]],
-            ["rem", [None, None, None], ["q", ["id", 0]]],
+            ["rem", [None, None, None], ["q", ["id", 0]]], ["rem", t1, ["q", ["view", 0]]],
             ["graph", ["id", 1]], ["rmgraph", ["id", 1]], ["rmgraph", ["id", 0]], ["rmgraph", ["view", 3]],
             ["rmctx", 1],
         ]
@@ -461,8 +504,18 @@ class C02(Suite):
                     ops = [list(o) for o in seq]
                     if not is_ds and any(o[0] in ("graph", "rmgraph") for o in ops):
                         continue
-                    yield {"ds": is_ds, "names": [0, 1, 3, 2], "vocab": [t1, t2],
-                           "ops": ops + [tails[(len(ops) + hash(str(ops))) % 3]]}
+                    for wdu in ((False, True) if n < 3 else (False,)):
+                        yield {"ds": is_ds, "wdu": wdu, "names": [0, 1, 3, 2], "vocab": [t1, t2],
+                               "ops": ops + [tails[(len(ops) + hash(str(ops))) % 3]]}
+        # a graph emptied by a removal naming no graph, removed, then written to again (front end / views)
+        for g in (1, 3):
+            for rem in (["rem", t1, "t"], ["rem", t1, ["q", None]], ["rem", [None, None, None], "t"]):
+                for rm in (["rmgraph", ["id", g]], ["rmgraph", ["view", g]]):
+                    for again in ([], ["pre"], ["new"]):
+                        for wdu in (False, True):
+                            yield {"ds": True, "wdu": wdu, "names": [0, 1, 3], "vocab": [t1, t2],
+                                   "ops": [["add", t1, ["q", ["id", g]]], rem, rm, ["add", t2, ["q", ["id", g]]] + again,
+                                           ["graph", ["id", 2]]]}
 
 
 def _gargs(o):
